@@ -176,7 +176,7 @@ def rule_d(ctx):
     esc = [e for e in esc if not is_user_code(e) and not re.match(r"^<signal_hook::iterator::backend::Handle as core::clone::Clone>::clone", e.name)]
     ctx.check(not esc, rid, "no-escape", "no forget/ManuallyDrop::new/ptr::read/… instance on a delivery type in the monomorphic program",
               None, [e.name[:200] for e in esc])
-    for wp in F.some(name_re=r"^signal_hook::iterator::backend::SignalDelivery::<.*>::with_pipe::<", what="SignalDelivery::with_pipe"):
+    for wp in F.some(name_re=r"^signal_hook::iterator::backend::SignalDelivery::<.*>::with_pipe::<", what="SignalDelivery::with_pipe", kind="item"):
         ctx.fn(wp)
         aggs = adt_constructions(wp, "signal_hook::iterator::backend::SignalDelivery")
         if not aggs:
@@ -218,25 +218,43 @@ def rule_e(ctx):
                       {"facts": [(show(c), i) for c, i, _ in facts]})
             if guard is None:
                 continue
-            # the entry examined is table[signal as usize]
-            idx_ok = False
+            # the entry examined is table[signal as usize]: the guard's operand derives from an Index/IndexMut call whose index is `signal`
             ce, sb = guard
-            cb = ce[1] if ce[0] == "call" else None
-            if cb is not None:
-                for a in flow(h).term_arg(cb, 0):
-                    if mentions(a, lambda x: x[0] == "call" and x[3] and "Index" in x[3] and _idx_is_param(h, x[1], 2)):
-                        idx_ok = True
+            srcs = [ce]
+            if ce[0] == "call":
+                srcs = list(flow(h).term_arg(ce[1], 0))
+            idx_calls = set()
+            for a in srcs:
+                def grab(x):
+                    if x[0] == "call" and x[3] and "Index" in x[3]:
+                        idx_calls.add(x[1])
+                    return False
+                mentions(a, grab)
+            idx_ok = bool(idx_calls) and all(_idx_is_param(h, cb, 2) for cb in idx_calls)
             ctx.check(idx_ok, rid, "add:guard-index", "the examined entry is table[signal as usize] for this call's `signal`", t["sp"],
                       show(ce))
-            # the write
+            # the write: an assignment through the reference an IndexMut call on the table returned
             n_w = 0
-            for wbb, t2 in h.calls():
-                if t2.get("f") is not None and "IndexMut" in F.inst[t2["f"]].name:
+            fl = flow(h)
+            for wbb, bl in enumerate(h.blocks):
+                for si, st in enumerate(bl["s"]):
+                    if st["k"] != "assign" or not st["l"]["p"] or st["l"]["p"][0]["k"] != "deref" or "SigId" not in h.local_ty(st["l"]["l"]):
+                        continue
+                    base = fl.local(st["l"]["l"], (wbb, si))
+                    im = set()
+                    for e in base:
+                        def grab2(x):
+                            if x[0] == "call" and x[3] and "IndexMut" in x[3]:
+                                im.add(x[1])
+                            return False
+                        mentions(e, grab2)
+                    if not im:
+                        continue
                     n_w += 1
-                    same = _idx_is_param(h, wbb, 2)
+                    same = all(_idx_is_param(h, cb, 2) for cb in im)
                     g, why = result_gates(F, h, bb, wbb)
                     ctx.check(same and g, rid, "add:write-after-ok", "table[signal] is written only after the registration returned Ok",
-                              t2["sp"], {"same_index": same, "gated": why})
+                              st["sp"], {"same_index": same, "gated": why})
             if n_w == 0:
                 raise AnchorLost("add_signal no longer writes the id table through IndexMut")
 
